@@ -5,20 +5,28 @@
 package c17
 
 import (
+	"bufio"
 	"bytes"
+	"context"
 	"encoding/json"
 	"fmt"
 	"hash/fnv"
 	"os"
 	"os/exec"
 	"path/filepath"
+	"regexp"
 	"runtime"
+	"strconv"
 	"strings"
 	"sync"
 	"sync/atomic"
 	"testing"
 	"time"
 
+	"github.com/yorkie-team/yorkie/api/types"
+	"github.com/yorkie-team/yorkie/api/types/events"
+	yorkietime "github.com/yorkie-team/yorkie/pkg/document/time"
+	"github.com/yorkie-team/yorkie/server/backend/pubsub"
 	"github.com/yorkie-team/yorkie/server/logging"
 
 	"verifharness/kit"
@@ -33,7 +41,7 @@ const (
 func init() {
 	kit.Pkg = "c17"
 	kit.Race = true
-	// The batch publisher logs every timed-out send at info level.
+	// (The child process taps the publisher's info-level log, see startLogTap.)
 	_ = logging.SetLogLevel("fatal")
 }
 
@@ -45,10 +53,153 @@ func init() {
 // recorded violation with the in-flight case as the replay file.
 func TestMain(m *testing.M) {
 	if os.Getenv(childEnv) != "" {
-		os.Exit(m.Run())
+		startLogTap()
+		code := m.Run()
+		stopLogTap()
+		os.Exit(code)
 	}
 	os.Exit(supervise())
 }
+
+// ---------------------------------------------------------------------------
+// publisher log tap
+//
+// The batch publisher logs every failed send ("Publish to <actor> timeout or
+// closed", info level, to the *os.File that os.Stdout names when the
+// publisher is created). The child process therefore runs with os.Stdout
+// replaced by a pipe: a reader goroutine counts these lines per actor and
+// forwards everything else to the real stdout. The counts are not an oracle;
+// they decide how a cap hit in a starved process is attributed (see
+// (*world).refute): "a send to this watcher may have timed out" can be checked.
+
+type logTap struct {
+	real     *os.File
+	w        *os.File
+	done     chan struct{}
+	mu       sync.Mutex
+	timeouts map[string]int
+	barriers map[string]chan struct{}
+	seq      atomic.Int64
+	selfOnce sync.Once
+	usable   bool
+}
+
+var (
+	tap         *logTap
+	timeoutLine = regexp.MustCompile(`Publish to ([0-9a-f]{24}) timeout or closed`)
+)
+
+const barrierPrefix = "C17-LOGTAP-BARRIER "
+
+func startLogTap() {
+	r, w, err := os.Pipe()
+	if err != nil {
+		return
+	}
+	t := &logTap{real: os.Stdout, w: w, done: make(chan struct{}), timeouts: map[string]int{}, barriers: map[string]chan struct{}{}}
+	os.Stdout = w
+	_ = logging.SetLogLevel("info")
+	go t.read(r)
+	tap = t
+}
+
+func stopLogTap() {
+	if tap == nil {
+		return
+	}
+	os.Stdout = tap.real
+	_ = tap.w.Close()
+	<-tap.done
+}
+
+func (t *logTap) read(r *os.File) {
+	defer close(t.done)
+	br := bufio.NewReaderSize(r, 1<<16)
+	for {
+		line, err := br.ReadString('\n')
+		switch {
+		case line == "":
+		case strings.Contains(line, " timeout or closed"):
+			if m := timeoutLine.FindStringSubmatch(line); m != nil {
+				t.mu.Lock()
+				t.timeouts[m[1]]++
+				t.mu.Unlock()
+			}
+		case strings.HasPrefix(line, barrierPrefix):
+			tok := strings.TrimSpace(line[len(barrierPrefix):])
+			t.mu.Lock()
+			if ch := t.barriers[tok]; ch != nil {
+				close(ch)
+				delete(t.barriers, tok)
+			}
+			t.mu.Unlock()
+		default:
+			_, _ = t.real.WriteString(line)
+		}
+		if err != nil {
+			return
+		}
+	}
+}
+
+// barrier returns true once the reader has processed everything that was
+// written to the pipe before the call.
+func (t *logTap) barrier(limit time.Duration) bool {
+	tok := strconv.FormatInt(t.seq.Add(1), 10)
+	ch := make(chan struct{})
+	t.mu.Lock()
+	t.barriers[tok] = ch
+	t.mu.Unlock()
+	if _, err := t.w.WriteString(barrierPrefix + tok + "\n"); err != nil {
+		return false
+	}
+	select {
+	case <-ch:
+		return true
+	case <-time.After(limit):
+		return false
+	}
+}
+
+// timeoutsOf is the number of failed sends to the actor logged so far.
+func (t *logTap) timeoutsOf(id yorkietime.ActorID) int {
+	t.mu.Lock()
+	defer t.mu.Unlock()
+	return t.timeouts[id.String()]
+}
+
+// ok reports whether the tap really sees the publisher's failed sends (checked
+// once, on first use: a subscription nobody reads must produce such a line).
+// If not - the log line changed, say - the attribution falls back to the
+// plain convention.
+func (t *logTap) ok() bool {
+	t.selfOnce.Do(func() {
+		ctx := context.Background()
+		ps := pubsub.New()
+		id := yorkietime.ActorID{0: 0xc1, 1: 0x17, 2: 0xff, 3: 0xff, 4: 0xff, 11: 1}
+		other := yorkietime.ActorID{0: 0xc1, 1: 0x17, 2: 0xff, 3: 0xff, 4: 0xff, 11: 2}
+		key := types.DocRefKey{ProjectID: types.ID("0000000000000000000c17ff"), DocID: types.ID("00000000000000000000d0ff")}
+		sub, _, err := ps.Subscribe(ctx, id, key, 0)
+		if err != nil {
+			return
+		}
+		defer ps.Unsubscribe(ctx, key, sub)
+		deadline := time.Now().Add(waitCap)
+		for time.Now().Before(deadline) {
+			ps.Publish(ctx, other, events.DocEvent{Type: events.DocChanged, Key: key, Actor: other})
+			time.Sleep(120 * time.Millisecond)
+			if t.barrier(time.Second) && t.timeoutsOf(id) > 0 {
+				t.usable = true
+				return
+			}
+		}
+	})
+	return t.usable
+}
+
+// caseSeq numbers the evaluated cases of this process; it is part of the actor
+// ids so that a logged line belongs to exactly one instance of one case.
+var caseSeq atomic.Int64
 
 // capWriter tees to stdout and keeps the last part of the output.
 type capWriter struct {
